@@ -1113,10 +1113,23 @@ def fin(v):
 
 
 def extreme(c, d):
-    """exp(log_alpha) underflows in double precision (the implementation's acceptance probability is
-    exactly 0): the exact model value 2^(-huge) would make every later interval operation align
-    mantissas over that exponent range.  Such records are checked on the implementation side only."""
-    return d.get("la_ref", 0.0) < -700.0 or any(abs(v) > 1e200 for vs in c["proposed"].values() for v in vs)
+    """The model's log acceptance ratio is below -700 (exp underflows in double precision; the exact
+    model value 2^(-huge) would make every later interval operation align mantissas over that
+    exponent range and exhaust memory), or absurdly large values.  Computed from what the MODEL will
+    see (oracle Hastings terms h1 - h2, densities from scratch), not from the implementation's
+    outputs.  Such records are checked on the implementation side only."""
+    if c["kind"] in ("ScalerOperator", "SlidingWindowOperator"):
+        h = c["hastings"] if math.isfinite(c["hastings"]) else 0.0
+        h = max(min(h, 50.0), -50.0)      # the model recomputes -ln s, s within (scaler, 1/scaler)
+    else:
+        h = d.get("h1", 0.0) - d.get("h2", 0.0)
+    vals = [h, d.get("h1", 0.0), d.get("h2", 0.0)] + [v for vs in c["proposed"].values() for v in vs]
+    if any((not math.isfinite(v)) or abs(v) > 1e100 for v in vals):
+        return True
+    if math.isfinite(d["pi_prop"]) and math.isfinite(d["pi_before"]):
+        if (d["pi_prop"] - d["pi_before"]) + h < -700.0:
+            return True
+    return False
 
 
 def record_case(run, k, c, d):
